@@ -38,7 +38,14 @@
 
     4. Which messages get a ticker: the [cyclic] bit of a transmitter role (Lts.t_cyclic, the guard
        of apply_ticker) is COMPUTED here from the descriptor's facts, run.go:140-142:
-       isCyclic = (SendType = Cyclic), hasCycleTime = (CycleTime > 0). *)
+       isCyclic = (SendType = Cyclic), hasCycleTime = (CycleTime > 0).
+
+    5. Which hook runs: one runner thread against the hook FIELD of a message (a function value, here
+       a number) that application code replaces under the node lock.  The runner reads the field
+       inside its critical section (run.go:109 / 167) and calls what it read after Unlock
+       (run.go:116 / 170).  Events: KLock / KUnlock (the runner thread's critical section; the field
+       is read in it), KSet h (an application critical section Lock; Set...Hook(h); Unlock - it cannot
+       overlap the runner's), KCall h (the runner calls hook h). *)
 From Coq Require Import Arith Bool List ZArith.
 From CanVerif Require Import Runner.Lts Runner.RunModel.
 Import ListNotations.
@@ -237,3 +244,32 @@ Definition role_of_descriptor (send_type : nat) (cycle : Z) (enabled_at_start : 
 
 Definition role_cyclic (r : role) : option bool :=
   match r with RoleTx c | RoleTxOn c => Some c | _ => None end.
+
+(* ---------------------------------------------------------------- 5. which hook runs *)
+
+Inductive kpc := KIdle | KLocked | KWindow.
+Record kstate := mkK { k_pc : kpc; k_field : nat; k_snap : nat }.
+Inductive kevent := KLock | KUnlock | KSet (h : nat) | KCall (h : nat).
+
+Definition kinit (h : nat) : kstate := mkK KIdle h h.
+
+Definition kstep (k : kstate) (e : kevent) : option kstate :=
+  match e, k_pc k with
+  | KLock, KIdle | KLock, KWindow => Some (mkK KLocked (k_field k) (k_field k))   (* the read under the lock *)
+  | KUnlock, KLocked => Some (mkK KWindow (k_field k) (k_snap k))
+  | KSet h, KIdle | KSet h, KWindow => Some (mkK (k_pc k) h (k_snap k))           (* mutex: not while KLocked *)
+  | KCall h, KWindow => if Nat.eqb h (k_snap k) then Some (mkK KIdle (k_field k) (k_snap k)) else None
+  | _, _ => None
+  end.
+
+Fixpoint krun (k : kstate) (tr : list kevent) : option kstate :=
+  match tr with
+  | [] => Some k
+  | e :: tl => match kstep k e with Some k' => krun k' tl | None => None end
+  end.
+
+Fixpoint kfirst_reject (k : kstate) (tr : list kevent) (n : nat) : option nat :=
+  match tr with
+  | [] => None
+  | e :: tl => match kstep k e with Some k' => kfirst_reject k' tl (S n) | None => Some n end
+  end.
